@@ -371,6 +371,20 @@ func (s *Seq) build(lid int, r *shapes.Rec, nan string) *shapes.Rec {
 	if u, ok := s.M.UUID[lid]; ok {
 		o.Initialize(u)
 	}
+	if m, ok := o.Any.(map[string]interface{}); ok && m["$box"] != nil {
+		b := shapes.AnyBox{Box: fmt.Sprint(m["$box"]), S: fmt.Sprint(m["S"])}
+		if n, ok := m["N"].(float64); ok {
+			b.N = int32(n)
+		}
+		if l, ok := m["L"].([]interface{}); ok {
+			for _, v := range l {
+				if f, ok := v.(float64); ok {
+					b.L = append(b.L, int(f))
+				}
+			}
+		}
+		o.Any = b
+	}
 	switch nan {
 	case "nan":
 		o.F64 = math.NaN()
